@@ -82,26 +82,30 @@ def processOne (t : STab) (pr : Nat) (l : List Nat) : STab :=
     let t1 := t.rowSwap pr first
     (rest.foldl (fun acc i => acc.rowSum pr i) t1).norm
 
+/-- the list of `pauli_type_finder` for Pauli type `ty` (1 = x, 2 = y, otherwise z) -/
+def pickType (t : STab) (pr pc ty : Nat) : List Nat :=
+  if ty = 1 then (t.pauliTypeFinder pr pc).1 else if ty = 2 then (t.pauliTypeFinder pr pc).2.1 else (t.pauliTypeFinder pr pc).2.2
+
 /-- `_process_two_pauli` for Pauli types `ty1`, `ty2` (1 = x, 2 = y, 3 = z); `none` = the internal assert fails / a list is empty -/
 def processTwo (t : STab) (pr pc : Nat) (ty1 ty2 : Nat) : Option STab :=
-  let pick (t : STab) (ty : Nat) : List Nat :=
-    let (xs, ys, zs) := t.pauliTypeFinder pr pc
-    if ty = 1 then xs else if ty = 2 then ys else zs
-  match pick t ty1 with
+  match t.pickType pr pc ty1 with
   | [] => none
   | f1 :: _ =>
     let t1 := (t.rowSwap pr f1).norm
-    match pick t1 ty2 with
+    match t1.pickType pr pc ty2 with
     | [] => none
     | f2 :: _ =>
-      let t2 := (t1.rowSwap (pr + 1) f2).norm
-      match pick t2 ty1, pick t2 ty2 with
-      | a :: l1, b :: l2 =>
-        if a = pr ∧ b = pr + 1 then
-          let t3 := l1.foldl (fun acc i => acc.rowSum pr i) t2
-          some (l2.foldl (fun acc i => acc.rowSum (pr + 1) i) t3).norm
-        else none
-      | _, _ => none
+      -- (row `pr + 1` exists whenever two Pauli types occur below `pr`; numpy would raise IndexError otherwise)
+      if pr + 1 < t.n then
+        let t2 := (t1.rowSwap (pr + 1) f2).norm
+        match t2.pickType pr pc ty1, t2.pickType pr pc ty2 with
+        | a :: l1, b :: l2 =>
+          if a = pr ∧ b = pr + 1 then
+            let t3 := l1.foldl (fun acc i => acc.rowSum pr i) t2
+            some (l2.foldl (fun acc i => acc.rowSum (pr + 1) i) t3).norm
+          else none
+        | _, _ => none
+      else none
 
 /-- `one_step_rref(tableau, pivot)`; returns the new tableau and pivot, `none` if an internal assert fails -/
 def oneStepRref (t : STab) (pr pc : Nat) : Option (STab × Nat × Nat × String) :=
@@ -165,6 +169,11 @@ def heightMax (t : STab) : Except Err Int :=
 def zTypeFinder (t : STab) (pr pc : Nat) : List Nat :=
   ((List.range t.n).filter (fun i => pr ≤ i)).filter (fun i => t.ptype i pc = 3)
 
+/-- a pivot-clearing sweep: every selected row other than the pivot row `pr` is multiplied by the pivot row
+    (`for row_m in range(n): if <sel> and row_m != pivot[0]: tab_row_sum(tableau, pivot[0], row_m)`) -/
+def sweep (t : STab) (pr : Nat) (sel : Nat → Bool) : STab :=
+  { t with row := fun m => if m ≠ pr ∧ sel m then stabMul t.n (t.row pr) (t.row m) else t.row m }
+
 /-- first loop of `canonical_form` (X/Y pivots), one column -/
 def canonStepXY (t : STab) (pr j : Nat) : STab × Nat :=
   let (xs, ys, _) := t.pauliTypeFinder pr j
@@ -172,8 +181,7 @@ def canonStepXY (t : STab) (pr j : Nat) : STab × Nat :=
   | none => (t, pr)
   | some f =>
     let t1 := (t.rowSwap pr f).norm
-    let piv := t1.row pr
-    ({ t1 with row := fun m => if m ≠ pr ∧ (t1.row m).x j then stabMul t1.n piv (t1.row m) else t1.row m }.norm, pr + 1)
+    ((t1.sweep pr fun m => (t1.row m).x j).norm, pr + 1)
 
 /-- second loop of `canonical_form` (Z pivots), one column -/
 def canonStepZ (t : STab) (pr j : Nat) : STab × Nat :=
@@ -181,14 +189,15 @@ def canonStepZ (t : STab) (pr j : Nat) : STab × Nat :=
   | none => (t, pr)
   | some f =>
     let t1 := (t.rowSwap pr f).norm
-    let piv := t1.row pr
-    ({ t1 with row := fun m => if m ≠ pr ∧ (t1.row m).z j then stabMul t1.n piv (t1.row m) else t1.row m }.norm, pr + 1)
+    ((t1.sweep pr fun m => (t1.row m).z j).norm, pr + 1)
 
 /-- `canonical_form(tableau)`; the final `assert pivot[0] == n` fails exactly for dependent generators -/
+def canonLoops (t : STab) : STab × Nat :=
+  let r1 := (List.range t.n).foldl (fun (acc : STab × Nat) j => acc.1.canonStepXY acc.2 j) (t, 0)
+  (List.range t.n).foldl (fun (acc : STab × Nat) j => acc.1.canonStepZ acc.2 j) r1
+
 def canonicalForm (t : STab) : Except Err STab :=
-  let (t1, p1) := (List.range t.n).foldl (fun (acc : STab × Nat) j => acc.1.canonStepXY acc.2 j) (t, 0)
-  let (t2, p2) := (List.range t.n).foldl (fun (acc : STab × Nat) j => acc.1.canonStepZ acc.2 j) (t1, p1)
-  if p2 = t.n then .ok t2 else .error .assertion
+  if t.canonLoops.2 = t.n then .ok t.canonLoops.1 else .error .assertion
 
 /-- all pairs `(j, k)` with `j < k < n` in the order of the nested Python loops -/
 def pairsLt (n : Nat) : List (Nat × Nat) :=
@@ -198,51 +207,62 @@ structure InvState where
   t : STab
   circ : List Gate
 
+namespace InvState
+/-- apply a gate to the tableau and append it to the circuit list -/
+def gate (st : InvState) (g : Gate) : InvState := { t := (st.t.applyGate g).norm, circ := st.circ ++ [g] }
+def swap (st : InvState) (a b : Nat) : InvState := { st with t := (st.t.rowSwap a b).norm }
+def rsum (st : InvState) (a b : Nat) : InvState := { st with t := (st.t.rowSum a b).norm }
+end InvState
+
+/-- block 1, column `j` (the pivot row index equals `j`): bring a pivot to the diagonal; Hadamard on a Z pivot that is
+    not already alone to its right -/
+def invStep1 (n : Nat) (st : InvState) (j : Nat) : InvState :=
+  let (xs, ys, zs) := st.t.pauliTypeFinder j j
+  match xs.head? with
+  | some f => st.swap j f
+  | none =>
+    match ys.head? with
+    | some f => st.swap j f
+    | none =>
+      match zs.getLast? with
+      | some f =>
+        let s1 := st.swap j f
+        if ((List.range n).filter fun k => j < k).any fun k => (s1.t.row j).x k || (s1.t.row j).z k then s1.gate (.H j) else s1
+      | none => st
+
+/-- block 2: CNOTs clear the X part right of the diagonal -/
+def invStep2 (st : InvState) (jk : Nat × Nat) : InvState :=
+  if (st.t.row jk.1).x jk.2 then st.gate (.CNOT jk.1 jk.2) else st
+/-- block 3: CZs clear the Z part right of the diagonal -/
+def invStep3 (st : InvState) (jk : Nat × Nat) : InvState :=
+  if !(st.t.row jk.1).x jk.2 && (st.t.row jk.1).z jk.2 then st.gate (.CZ jk.1 jk.2) else st
+/-- block 4: phase gates turn Y on the diagonal into X -/
+def invStep4 (st : InvState) (j : Nat) : InvState :=
+  if (st.t.row j).x j && (st.t.row j).z j then st.gate (.P j) else st
+/-- block 5: Hadamards turn X on the diagonal into Z -/
+def invStep5 (st : InvState) (j : Nat) : InvState :=
+  if (st.t.row j).x j && !(st.t.row j).z j then st.gate (.H j) else st
+/-- block 6: row sums clear the Z part left of the diagonal -/
+def invStep6 (st : InvState) (jk : Nat × Nat) : InvState :=
+  if !(st.t.row jk.2).x jk.1 && (st.t.row jk.2).z jk.1 then st.rsum jk.1 jk.2 else st
+/-- block 7: X gates fix the signs (`for i in np.nonzero(tableau.phase)[0]`, the index list is computed once) -/
+def invStep7 (st : InvState) (i : Nat) : InvState := st.gate (.X i)
+
+def invBlocks (t0 : STab) : InvState :=
+  let n := t0.n
+  let s1 := (List.range n).foldl (invStep1 n) { t := t0, circ := [] }
+  let s2 := (pairsLt n).foldl invStep2 s1
+  let s3 := (pairsLt n).foldl invStep3 s2
+  let s4 := (List.range n).foldl invStep4 s3
+  let s5 := (List.range n).foldl invStep5 s4
+  let s6 := (pairsLt n).foldl invStep6 s5
+  ((List.range n).filter fun i => (s6.t.row i).r).foldl invStep7 s6
+
 /-- `inverse_circuit(tableau)` → `(tableau, circuit_list)` -/
 def inverseCircuit (t : STab) : Except Err (STab × List Gate) :=
   match t.canonicalForm with
   | .error e => .error e
-  | .ok t0 =>
-    let n := t.n
-    -- block 1: bring a pivot to the diagonal, Hadamard on Z pivots that are not already alone
-    let s1 : InvState × Nat := (List.range n).foldl (fun (acc : InvState × Nat) j =>
-      let (st, pr) := acc
-      let (xs, ys, zs) := st.t.pauliTypeFinder pr j
-      let st' : InvState :=
-        match xs.head? with
-        | some f => { st with t := (st.t.rowSwap pr f).norm }
-        | none =>
-          match ys.head? with
-          | some f => { st with t := (st.t.rowSwap pr f).norm }
-          | none =>
-            match zs.getLast? with
-            | some f =>
-              let t1 := (st.t.rowSwap pr f).norm
-              if ((List.range n).filter fun k => j < k).any fun k => (t1.row pr).x k || (t1.row pr).z k then
-                { t := (t1.applyGate (.H j)).norm, circ := st.circ ++ [.H j] }
-              else { st with t := t1 }
-            | none => st
-      (st', pr + 1)) ({ t := t0, circ := [] }, 0)
-    -- block 2: CNOTs clear the X part above the diagonal
-    let s2 : InvState := (pairsLt n).foldl (fun st (jk : Nat × Nat) =>
-      if (st.t.row jk.1).x jk.2 then { t := (st.t.applyGate (.CNOT jk.1 jk.2)).norm, circ := st.circ ++ [.CNOT jk.1 jk.2] } else st) s1.1
-    -- block 3: CZs clear the Z part above the diagonal
-    let s3 : InvState := (pairsLt n).foldl (fun st (jk : Nat × Nat) =>
-      if !(st.t.row jk.1).x jk.2 && (st.t.row jk.1).z jk.2 then
-        { t := (st.t.applyGate (.CZ jk.1 jk.2)).norm, circ := st.circ ++ [.CZ jk.1 jk.2] } else st) s2
-    -- block 4: phase gates turn Y on the diagonal into X
-    let s4 : InvState := (List.range n).foldl (fun st j =>
-      if (st.t.row j).x j && (st.t.row j).z j then { t := (st.t.applyGate (.P j)).norm, circ := st.circ ++ [.P j] } else st) s3
-    -- block 5: Hadamards turn X on the diagonal into Z
-    let s5 : InvState := (List.range n).foldl (fun st j =>
-      if (st.t.row j).x j && !(st.t.row j).z j then { t := (st.t.applyGate (.H j)).norm, circ := st.circ ++ [.H j] } else st) s4
-    -- block 6: row sums clear the Z part below the diagonal
-    let t6 : STab := (pairsLt n).foldl (fun acc (jk : Nat × Nat) =>
-      if !(acc.row jk.2).x jk.1 && (acc.row jk.2).z jk.1 then (acc.rowSum jk.1 jk.2).norm else acc) s5.t
-    -- block 7: X gates fix the signs
-    let nz := (List.range n).filter fun i => (t6.row i).r
-    let s7 : InvState := nz.foldl (fun st i => { t := (st.t.applyGate (.X i)).norm, circ := st.circ ++ [.X i] }) { t := t6, circ := s5.circ }
-    .ok (s7.t, s7.circ)
+  | .ok t0 => .ok ((invBlocks t0).t, (invBlocks t0).circ)
 
 /-- `StabilizerTableau(n)` / the all-|0⟩ state -/
 def zero (n : Nat) : STab := { n := n, row := fun i => PRow.Zq i }
